@@ -166,13 +166,16 @@ package pipeline
 //@   preserves Event
 //@   ensures held(b.mu)
 //@   ensures result == b.batch && result != nil && result.maxSizeCount >= 0 && result.maxSizeBytes >= 0
-//@   ensures b.outSeq == old(b.outSeq)
+//@   ensures b.outSeq == old(b.outSeq) && b.shouldStop == old(b.shouldStop)
 //@   ensures old(b.batch) != nil ==> result == old(b.batch) && len(result.events) == old(len(b.batch.events)) && result.startTime.wall == old(b.batch.startTime.wall) && result.startTime.ext == old(b.batch.startTime.ext)
 //@   ensures result.maxSizeCount != 0 ==> len(result.events) < result.maxSizeCount
 //@   ensures result.maxSizeBytes != 0 ==> result.eventsSize < result.maxSizeBytes
 //@   callee chanrecv:freeBatches() (v)
 //@     ensures v != nil && v.maxSizeCount >= 0 && v.maxSizeBytes >= 0 && (v.maxSizeCount != 0 || v.maxSizeBytes != 0)
 
+// The send on fullBatches happens with mu held and shouldStop false: Stop closes
+// the channel under the same lock, so a batch is never sent on a closed channel
+// ("stopping a batcher while events are still being added never panics").
 // trySendBatchAndUnlock: called with mu held on the current batch, at most one
 // event above "strictly below the limits".  What is handed to the workers
 // (oracle on the channel send, from the property): a ready batch with at most
@@ -182,7 +185,7 @@ package pipeline
 //@ func (*Batcher).trySendBatchAndUnlock
 //@   ghost lastSize int
 //@   releases b.mu
-//@   requires batch != nil && batch == b.batch && b.outSeq >= 0 && lastSize >= 0
+//@   requires batch != nil && batch == b.batch && b.outSeq >= 0 && lastSize >= 0 && !b.shouldStop
 //@   requires batch.maxSizeCount >= 0 && batch.maxSizeBytes >= 0
 //@   requires batch.maxSizeCount != 0 ==> len(batch.events) <= batch.maxSizeCount
 //@   requires batch.maxSizeBytes != 0 ==> batch.eventsSize - lastSize < batch.maxSizeBytes
@@ -190,7 +193,7 @@ package pipeline
 //@   ensures !held(b.mu)
 //@   assert at "b.batch = nil" held(b.mu) && batch.seq == old(b.outSeq) && b.outSeq == old(b.outSeq) + 1
 //@   callee chansend:fullBatches(v)
-//@     requires v == batch && !held(b.mu)
+//@     requires v == batch && held(b.mu) && !b.shouldStop
 //@     requires v.status == BatchStatusMaxSizeExceeded || v.status == BatchStatusTimeoutExceeded
 //@     requires len(v.events) > 0
 //@     requires v.maxSizeCount != 0 ==> len(v.events) <= v.maxSizeCount
